@@ -2,6 +2,7 @@
 # mutation self-test helper: apply a patch (or a sed-like replacement) to a scratch copy of /repo,
 # run the given checks against the copy, report which ones raise an alarm, remove the copy.
 #   tools/mutate.sh <name> <patch-file|-> <checks...>         (patch on stdin with '-')
+#   MUT_KEEP=1 keeps the scratch copy; MUT_LOG=<prefix> stores each check's full output in <prefix>.<check>
 #   tools/mutate.sh <name> --replace <file> <old> <new> -- <checks...>
 set -u
 name=$1; shift
@@ -30,5 +31,7 @@ for c in "$@"; do
   first=$(echo "$out" | grep "guard false" | head -2 | tr '\n' ' ')
   echo "[$name] $c rc=$rc violations=$n $first"
   if [ $rc -eq 2 ]; then echo "$out" | tail -5; fi
+  if [ -n "${MUT_LOG:-}" ]; then echo "$out" > "$MUT_LOG.$c"; fi
 done
-rm -rf "$scratch" "$alt"
+# MUT_KEEP=1 keeps the copy and its build tree for further runs (VERIF_REPO=$scratch bin/vcheck run ...)
+if [ -z "${MUT_KEEP:-}" ]; then rm -rf "$scratch" "$alt"; else echo "kept $scratch (alt $alt)"; fi
